@@ -3,7 +3,13 @@
 #include <stdint.h>
 #include <stddef.h>
 
-extern int __vf_exc_pending; extern void *__vf_exc_obj; extern void *__vf_exc_type;
+/* the pending-exception state is per thread (as C++ exceptions are); only threaded harnesses (-DVF_THREADS) need the distinction */
+#if defined(VF_THREADS) && defined(__CPROVER__)
+#define VF_TLS __CPROVER_thread_local
+#else
+#define VF_TLS
+#endif
+extern VF_TLS int __vf_exc_pending; extern VF_TLS void *__vf_exc_obj; extern VF_TLS void *__vf_exc_type;
 uint32_t __vf_landing(void **clauses, int n, int cleanup);
 uint32_t __vf_typeid_for(void *ti);
 void *__vf_alloca(size_t n);
